@@ -10,6 +10,8 @@ VERIF = os.path.dirname(os.path.dirname(os.path.abspath(__file__)))
 REPO = os.environ.get('VERIF_REPO', '/repo')
 REPO_SRC = os.environ.get('VERIF_REPO_SRC', os.path.join(REPO, 'src'))
 GUARD = 'CIRCUITCALCULATOR_VERIF'
+# where evidence and replays are written: /verif, except when a check is pointed at a scratch copy of the repository (seeded-change trials)
+OUT = os.environ.get('VERIF_OUT', VERIF)
 
 
 class MachineryError(Exception):
@@ -150,8 +152,8 @@ def open_signatures(prop: str) -> dict[str, dict]:
 # ----------------------------------------------------------------------------- evidence
 def write_evidence(prop: str, tier: str, seed: int, coverage: dict, wall_s: float, violations: int,
                    assumptions: list[str], level: str = 'model_checking') -> str:
-    os.makedirs(os.path.join(VERIF, 'evidence'), exist_ok=True)
-    path = os.path.join(VERIF, 'evidence', f'{prop}.json')
+    os.makedirs(os.path.join(OUT, 'evidence'), exist_ok=True)
+    path = os.path.join(OUT, 'evidence', f'{prop}.json')
     doc = {
         'property_id': prop,
         'tier': tier,
@@ -170,7 +172,7 @@ def write_evidence(prop: str, tier: str, seed: int, coverage: dict, wall_s: floa
 
 
 def write_replay(prop: str, case: dict, mismatches: list[dict], extra: dict | None = None) -> str:
-    d = os.path.join(VERIF, 'replays', prop)
+    d = os.path.join(OUT, 'replays', prop)
     os.makedirs(d, exist_ok=True)
     doc = {'property': prop, 'case': case, 'mismatches': mismatches}
     if extra:
